@@ -62,6 +62,10 @@ def classify(e: BaseException) -> str:
         return "ArgError"
     if isinstance(e, OSError):
         return "OSError"
+    # other built-in families by their base class: a library-defined subclass (e.g. of ImportError, KeyError) is still that family
+    for base in (ImportError, KeyError, IndexError, AttributeError, OverflowError, AssertionError, RecursionError, MemoryError, LookupError, ArithmeticError, RuntimeError):
+        if isinstance(e, base):
+            return base.__name__
     return type(e).__name__
 
 
